@@ -16,51 +16,71 @@
    (numbers: C17 number_roundtrip).                                                               *)
 From CssV Require Import Base Regex Tokenizer Quote Gen.Quote QuoteFacts Roundtrip RoundtripFacts.
 
-(* strings re-parse to an equal object: for every string value without a backslash, whatever
-   text follows the serialised string (nothing can extend it), in both tokenizer modes and with
-   comments kept or dropped, the first token of  helper.string(v) ++ follow  is a STRING token whose raw
-   text is exactly helper.string(v), at 1:1, and Base._stringtokenvalue of it is v again.
-   Covers the double quote, the apostrophe, \n \r \f (written \a , \d , \c ) and every non-ASCII
-   code point.                                                                                    *)
+(* strings re-parse to an equal object: for every REPRESENTABLE string value (QuoteFacts.rep_ok: every value
+   except (a) an escape-introducing backslash directly before a double quote - helper.string keeps the pinned
+   output for it, see string_roundtrip_dquote_refuted - and (b) a backslash before a newline character, which no
+   CSS text can denote because Tokenizer.cleanstring removes it after the escapes are resolved), whatever text
+   follows the serialised string, in both tokenizer modes and with comments kept or dropped, the first token of
+   helper.string(v) ++ follow  is a STRING token whose raw text is exactly helper.string(v), at 1:1, and
+   Base._stringtokenvalue of it is v again.  Covers quotes, \n \r \f, every non-ASCII code point and backslashes:
+   simple escapes kept in the value, escaped backslashes, a backslash in front of a hex digit (written with the hex
+   escape of the backslash), trailing backslashes.                                                          *)
 Theorem string_roundtrip : forall dc fs v follow,
-  no_backslash v ->
+  representable v ->
   exists t, first_token dc fs (hstring v ++ follow) = Some t /\
             ty t = s "STRING" /\ raw t = hstring v /\ line t = 1%nat /\ col t = 1%nat /\
             stringtokenvalue (Some t) = Ok (Some v).
 Proof. exact string_roundtrip_lemma. Qed.
 Print Assumptions string_roundtrip.
 
+(* every value without a backslash is representable (the statement of the first round) *)
+Theorem string_roundtrip_no_backslash : forall dc fs v follow,
+  no_backslash v ->
+  exists t, first_token dc fs (hstring v ++ follow) = Some t /\
+            ty t = s "STRING" /\ raw t = hstring v /\ stringtokenvalue (Some t) = Ok (Some v).
+Proof.
+  intros dc fs v follow Hn.
+  destruct (string_roundtrip_lemma dc fs v follow (nobs_representable v Hn)) as (t & H1 & H2 & H3 & _ & _ & H4).
+  exists t. auto.
+Qed.
+Print Assumptions string_roundtrip_no_backslash.
+
 Example string_roundtrip_example :
   let v := [97; 34; 39; 10; 13; 12; 233; 128512; 32; 47; 42]%N in
-  no_backslash v /\
+  representable v /\
   hstring v = [34; 97; 92; 34; 39; 92; 97; 32; 92; 100; 32; 92; 99; 32; 233; 128512; 32; 47; 42; 34]%N /\
   option_map (fun t => (ty t, raw t, stringtokenvalue (Some t))) (first_token true true (hstring v ++ s ";}"))
   = Some (s "STRING", hstring v, Ok (Some v)).
-Proof.
-  cbv zeta. split; [|split; vm_compute; reflexivity].
-  intros H. cbn [In] in H. repeat (destruct H as [H|H]; [discriminate|]). exact H.
-Qed.
+Proof. cbv zeta. split; [|split]; vm_compute; reflexivity. Qed.
+
+(* non-vacuity for values WITH backslashes: backslash 5 2 c (the witness of the former finding
+   C03-backslash-reread-as-escape) is written with the hex escape of the backslash and read back *)
+Example string_roundtrip_backslash_example :
+  let v := [92; 53; 50; 99]%N in
+  representable v /\ hstring v = [34; 92; 53; 99; 32; 53; 50; 99; 34]%N /\
+  option_map (fun t => stringtokenvalue (Some t)) (first_token true false (hstring v ++ s " x")) = Some (Ok (Some v)).
+Proof. cbv zeta. split; [|split]; vm_compute; reflexivity. Qed.
 
 (* the second half of the property (serialising the re-parsed object gives identical text), string level *)
 Theorem string_fixpoint : forall dc fs v follow t w,
-  no_backslash v -> first_token dc fs (hstring v ++ follow) = Some t ->
+  representable v -> first_token dc fs (hstring v ++ follow) = Some t ->
   stringtokenvalue (Some t) = Ok (Some w) -> hstring w = hstring v.
 Proof. exact string_fixpoint_lemma. Qed.
 Print Assumptions string_fixpoint.
 
-(* values WITH a backslash: the statement  forall v, <round trip>  is false for the pinned code, also
-   on values that a parse produces.  Witness (QuoteFacts.bs_source): the 4-character source
-   apostrophe backslash quote apostrophe is one STRING token with the value backslash quote;
-   helper.string writes quote backslash backslash quote quote; the first token of that is the string
-   quote backslash backslash quote with the value backslash (and an unterminated string follows).   *)
-Theorem string_roundtrip_backslash_refuted : forall fs,
-  exists src v, In 92%N v /\
+(* the excluded quote case: the full statement  forall v, <round trip>  is still false for the code, also on a
+   value that a parse produces.  Witness (QuoteFacts.bs_source): the 4-character source apostrophe backslash
+   quote apostrophe is one STRING token with the value backslash quote, which is not representable; helper.string
+   writes quote backslash backslash quote quote (the output the pinned test test_value.py:411 asserts); the first
+   token of that is the string quote backslash backslash quote with the value backslash.                  *)
+Theorem string_roundtrip_dquote_refuted : forall fs,
+  exists src v, ~ representable v /\
     option_map (fun t => (ty t, stringtokenvalue (Some t))) (first_token true fs src)
       = Some (s "STRING", Ok (Some v)) /\
     exists t, first_token true fs (hstring v) = Some t /\ raw t <> hstring v /\
               stringtokenvalue (Some t) <> Ok (Some v).
 Proof.
-  intros fs. exists bs_source, bs_value. split; [left; reflexivity|]. split; [apply bs_value_is_parsed|].
+  intros fs. exists bs_source, bs_value. split; [exact bs_value_not_representable|]. split; [apply bs_value_is_parsed|].
   destruct (bs_value_not_restored fs) as [Hh Ht]. rewrite Hh in *.
   destruct (first_token true fs [34; 92; 92; 34; 34]%N) as [t|]; [|discriminate].
   cbn [option_map] in Ht.
@@ -68,7 +88,7 @@ Proof.
   assert (Hv : stringtokenvalue (Some t) = Ok (Some [92%N])) by congruence.
   exists t. split; [reflexivity|]. rewrite Hr, Hv. split; discriminate.
 Qed.
-Print Assumptions string_roundtrip_backslash_refuted.
+Print Assumptions string_roundtrip_dquote_refuted.
 
 (* the fixpoint half of the property is a corollary of the re-parse half (any object kind) *)
 Theorem fixpoint_of_roundtrip : forall (M T : Type) (ser : M -> T) (parse : T -> option M) m,
@@ -80,7 +100,7 @@ Print Assumptions fixpoint_of_roundtrip.
      sepok                   the texts `Out` puts after a token                      (C05 model)
      out_tokens_preserved    `Out` spacing neither merges nor splits the item tokens   (C05; hypothesis)
      value_grammar_faithful  the prodparser value grammar returns the items it is fed (unmodelled; hypothesis)
-     wf_item                 strings: no backslash (then PROVED by string_roundtrip);
+     wf_item                 strings: representable (then PROVED by string_roundtrip);
                              other tokens: lexeme read back unchanged (C17 number_roundtrip, C09) *)
 Theorem reparse_equal_items :
   forall (sepok : str -> Prop) (out : list str -> str) (vparse : list tok -> option (list item)),
@@ -100,5 +120,5 @@ Qed.
 Print Assumptions reparse_equal_items.
 
 (* non-vacuity of wf_item: a string item with quotes and a newline is well-formed *)
-Example wf_item_example : forall sepok, wf_item sepok (IStr [97; 34; 10; 39]%N).
-Proof. intros sepok [H|[H|[H|[H|[]]]]]; discriminate. Qed.
+Example wf_item_example : forall sepok, wf_item sepok (IStr [97; 34; 10; 39; 92; 92; 53]%N).
+Proof. intros sepok. vm_compute. reflexivity. Qed.
